@@ -54,6 +54,9 @@ CHECKS = [
     chk("C10", "acmed-sim", "exploration",
         "generated hook tables (multi-typed hooks, nested groups, templates, allow_failure x exit codes incl. signals) x environment tables at four levels colliding with the process environment; an independent expansion model is compared batch by batch with the process seam's records: selection, order, one at a time, stop at first hard failure, argv/stdin/stdout rendering, environment precedence, pre/post x create/edit brackets around storage-seam writes, clean hooks after validated challenges",
         TRUST + "; the child process is a stub (simhook)", SIM + "; independent trace model over seeded configurations", "DESIGN.md 7 (C10)"),
+    chk("C11", "acmed-sim", "exploration",
+        "account histories (edits of contacts/key type/both/binding, restarts, renewals per endpoint, CA amnesia) of length <= 6 sampled and <= 4 exhaustively (thorough), crashes at the n-th storage/network/hook event incl. between chunks of an account save, and EVERY truncation offset of saved account files of 216 shapes; oracles: newAccount ledger (no stored URL / accountDoesNotExist / binding change), CA record == configuration after each successful renewal with at most one update per item, in-memory account before a quiescent stop == account loaded at the next boot, truncated file => refuse to start and file untouched",
+        TRUST + "; restart = process-crash model (completed write(2)s survive; acmed never syncs, power loss not claimed)", SIM + "; history search with crash and truncation points", "DESIGN.md 7 (C11)"),
     chk("C12", "acmed-sim", "exploration",
         "2..8 certificates over 1..3 accounts and 1..3 endpoints in every sharing pattern under seeded completion orders (latencies, tie-breaks, zero-sleep yields, initial poll order, lock fairness mode), with raced first registration, CA-forgotten accounts and pending account changes; oracles: executor deadlock/livelock detectors, attempt termination, newAccount ledger, nonce ledger",
         TRUST + "; acmed has one task: the completion order owned by the executor is its whole schedule space (worker-thread counts are not a dimension); async-lock's fairness heuristic reads the virtual clock through a seam in the shadow build", SIM + "; seeded schedule search", "DESIGN.md 7 (C12)"),
